@@ -68,9 +68,14 @@ def run(ctx):
         raise core.MachineryError("vacuous model: %s" % kinds)
     ctx.traces = n
     ctx.extra["remove_histories"] = kinds
+    from .. import tracedrv
+    tracedrv.trace_check(ctx, 150 if ctx.tier == "quick" else 1200, 6 if ctx.tier == "quick" else 8)
     ctx.rule = "every history ending in an enabled remove is one case (replayed via operations.remove_knot and via the object method)"
     ctx.assumptions = ["1e-8 relative tolerance", "removal of knots that are not exactly removable is unspecified (not an action of the model)"]
 
 
 def replay(ctx, v):
+    if "trace" in v["full"]:
+        from .. import tracedrv
+        return tracedrv.replay_trace(ctx, v["full"])
     check_case(ctx, v["full"])
